@@ -282,6 +282,30 @@ def post_keychain(pib, tpm, base):
             out.append(('C20:default-keychain-pib-path', f'keychain for {pib!r} is {type(kc).__name__} at {getattr(kc, "path", None)!r}'))
         if not isinstance(kc.tpm, TpmFile) or os.path.abspath(kc.tpm.path) != os.path.abspath(tpm_loc):
             out.append(('C20:default-keychain-tpm-path', f'private-key store for {tpm!r} is {type(kc.tpm).__name__} at {getattr(kc.tpm, "path", None)!r}'))
+        # a second keychain for the SAME public store with ANOTHER private-key store, while the first is still open
+        other_tpm_loc = os.path.join(os.path.dirname(os.path.abspath(tpm_loc)), 'other-tpm-' + os.path.basename(tpm_loc.rstrip('/')))
+        os.makedirs(other_tpm_loc, exist_ok=True)
+        try:
+            kc2 = client_conf.default_keychain(pib, 'tpm-file:' + other_tpm_loc)
+            try:
+                if not isinstance(kc2.tpm, TpmFile) or os.path.abspath(kc2.tpm.path) != os.path.abspath(other_tpm_loc):
+                    out.append(('C20:default-keychain-tpm-path', f'second keychain on {pib!r} asked for the private-key store '
+                                                                  f'{other_tpm_loc!r} uses {getattr(kc2.tpm, "path", None)!r}'))
+            finally:
+                if kc2 is not kc:
+                    kc2.shutdown()
+        except Exception as e:
+            out.append(('C20:default-keychain-raises', f'second default_keychain on {pib!r} raised {type(e).__name__}: {e}'))
+        # ... and with an unknown private-key store scheme: refused although the same public store is already open
+        try:
+            kc3 = client_conf.default_keychain(pib, 'tpm-unknown:' + other_tpm_loc)
+            if kc3 is not kc:
+                kc3.shutdown()
+            out.append(('C20:default-keychain-unknown-scheme', f'default_keychain({pib!r}, tpm-unknown:...) did not fail while another keychain on that store is open'))
+        except ValueError:
+            pass
+        except Exception as e:
+            out.append(('C20:default-keychain-unknown-scheme', f'default_keychain with an unknown tpm scheme raised {type(e).__name__}: {e}'))
     finally:
         kc.shutdown()
     for bad_pib, bad_tpm in ((pib.replace('pib-sqlite3', 'pib-memory'), tpm), (pib, tpm.replace('tpm-file', 'tpm-unknown'))):
